@@ -197,10 +197,10 @@ def sliceBytes (buf : Bytes) (s : Slice) : List UInt8 := (buf.extract s.off (s.o
 
 /-- `MHD_lookup_connection_value_n (c, kind, key, …)` for a non-NULL key: the first
     element of that kind whose name equals `key` caselessly -/
-def lookupElem (buf : Bytes) (elems : List Elem) (kind : Nat) (key : String) : Option Elem :=
+def lookupElem (buf : Bytes) (elems : List Elem) (kind : Nat) (key : List UInt8) : Option Elem :=
   elems.find? fun e =>
     (e.kind &&& kind != 0) && e.key.len == key.length &&
-      ((sliceBytes buf e.key).map toLowerAscii == (strBytes key).map toLowerAscii)
+      ((sliceBytes buf e.key).map toLowerAscii == key.map toLowerAscii)
 
 /-- result of `parse_cookie_header` -/
 structure Cookies where
@@ -213,7 +213,7 @@ structure Cookies where
 
 /-- `parse_cookie_header`; allocation of the copy is assumed to succeed -/
 def parseCookieHeader (F : CKFlags) (buf : Bytes) (elems : List Elem) : Except Fault Cookies :=
-  match lookupElem buf elems Http.kindHeader Http.hdrCookie with
+  match lookupElem buf elems Http.kindHeader Http.hdrCookieBytes with
   | none => pure ⟨.ok, #[], elems⟩
   | some e =>
     match e.value with
